@@ -86,6 +86,7 @@ TRUSTED_BASE = ["Lean 4.33 kernel", "axioms propext/Classical.choice/Quot.sound 
                 "samples of fixed_width_band_ci (their rates are the recorded arguments of _find_tube_radius), the joint bootstrap interval "
                 "(Scores.bootstrap_ci of the documented metric; C13/C14 cover it)",
                 "np.sort / np.concatenate / np.linspace / np.where / np.min / np.max by documented meaning",
+                "harness/dsdefs.py (reading of np.where / boolean-mask assignment / np.select / np.array([[a, b]]) in _apply_rule_of_three) for the regenerated rule-of-three row; values only",
                 "harness and driver parsing; tolerance 1e-9 on interpolated thresholds, 1e-12 on band values, 2^-50 on quotients",
                 "scripted kind: harness/rng_script.py (ScriptedRNG), the composed model SA/Model/RocCIScript.lean (+Sampling.lean, Rng.lean, "
                 "BootMetric.lean, Bootstrap.lean), oracles: normal ppf / cdf and x**1.5 (recorded scipy calls, two-pass protocol), the float "
@@ -130,6 +131,24 @@ SCRIPT_SAMPLERS = SAMPLERS + [("dynamic", None), ("dynamic", "by_label")]
 SCRIPT_MODES = ["zeros", "zeros+lo", "zeros+hi", "lo", "hi", "lo1", "hi1", "ones", "first", "last", "zeros+first", "zeros+last",
                 "hi1+lo", "lo1+hi", "hi+last", "lo+first", "ones+first", "ones+last"]
 SCRIPT_TOL = Fraction(1, 10**9)
+
+
+# --------------------------------------------------------------------------------------
+# second tie for the closed forms: regenerated from the source on every run (harness/dsdefs.py -> generated Lean file, the
+# translated rows compared with the model's by the kernel; soundness: SA/Theorems/C16Defs.lean + C20Defs.lean)
+# --------------------------------------------------------------------------------------
+def extra_gate_start():
+    """start the translator + Lean check in a child process; the sampled cases run meanwhile"""
+    import dsdefs
+    return dsdefs.start(ID, common.REPO)
+
+
+def extra_gate_finish(handle):
+    """-> {problems, theorems, obligations, discharged, notes, evidence, evidence_key}; a definite mismatch (an outcome code or a
+    named probe under the lawful interpretation separates a translated formula from the model's) is a broken proof obligation,
+    unknowns are evidence only"""
+    import dsdefs
+    return dsdefs.gate_result(dsdefs.finish(handle))
 
 
 def n_cases(tier):
